@@ -17,11 +17,16 @@ CLAIMS = {
             "of 2-4 variants of generated artefacts per format run through the real handlers and the extracted model (outputs must be byte-identical within a group and equal to the model's).",
             "Modelled, not verified: the javadoc statements are per line (stamp after a '<'-free prefix, tag at line start); whole-document and mid-line variants are decided by the variant-group runs; "
             "that flag variants of a pyc parse to the same tree is established by the runs (model and implementation agree on every variant).", "DESIGN.md section 5-C01"),
-    "C02": ("PARTIAL. Coq theorems about the model of the marshal reader and writer (type-code dispatch, code-object field order with version guards, flag bit, depth limit, skip bound "
-            "regenerated from pyc.rs): the header is copied verbatim; the output is a function of the header and of the object tree the reader builds (not of flag / back-reference placement); "
-            "files of interpreters without reference flags (Python < 3.4) are never rewritten; for every object tree, each reference the writer emits is preceded by the start of the very object it refers to, that object carries the reference flag, and the index written is the one at which the reader's table lookup finds it (no dangling, forward or from-within reference); the writer's de-duplication key is structural equality. The round trip 'the rewritten payload decodes, under CPython's rules for that version, to the same tree' "
-            "is not yet closed in Coq; it is decided by the byte-exact differential run (extracted model vs. the real handler, stdlib corpus and generated streams for 3.4..3.14) plus an independent "
-            "CPython-rules decoder comparing input and output trees (itself cross-checked against the sandbox's CPython 3.11).",
+    "C02": ("Coq theorems about the model of the marshal reader and writer (type-code dispatch, code-object field order with version guards, flag bit, depth limit, skip bound "
+            "regenerated from pyc.rs). Round trip (C02_roundtrip, induction over all object trees, any nesting and sharing): for every version and every tree in the domain, the reader run on what the writer produced returns "
+            "that tree - back-references resolved through the table of flagged objects - and stops exactly at its end; end to end (C02_rewritten_file_rereads): the rewritten file has the input's header, "
+            "its payload is read back as the tree the input was read as with nothing left over, and the handler leaves its own output alone. Domain, stated as hypotheses and decided by an executable predicate: "
+            "the tree has the shape the reader produces (known type codes, 4/8/16-byte scalars, short strings < 256, dict keys other than NULL, code-object fields of the version), nesting within the reader's limit, "
+            "output < 4 GiB; the extracted predicate is run on every sampled input and the check requires that the accepted inputs lie inside it. Further theorems: header copied verbatim; output a function "
+            "of header and tree only; files of Python < 3.4 never rewritten; every reference is preceded by the start of the object it names, which carries the flag, at the index the reader looks up; "
+            "integers of any size survive; de-duplication key = structural equality. That the modelled reader follows CPython's rules per version is not a theorem: it is decided by the byte-exact "
+            "differential run (extracted model vs. the real handler, stdlib corpus and generated streams for 3.4..3.14) plus an independent CPython-rules decoder comparing input and output trees "
+            "(itself cross-checked against the sandbox's CPython 3.11).",
             "Modelled, not verified: CPython's marshal rules per version (lib/pymarshal.py); bytecode semantics never interpreted; the model writes on dereferenced values and orders flags by "
             "stream position (= offset order), validated byte-for-byte by the differential run.", "DESIGN.md section 5-C02"),
     "C03": ("PARTIAL. Coq theorems about a model of Zip::process with the parts of the zip crate it relies on (end-of-central-directory search, central/local headers, raw_copy_file, finish): "
@@ -38,7 +43,7 @@ CLAIMS = {
             "independent-reader oracle), CP437 table, DEFLATE data opaque.", "DESIGN.md section 5-C03"),
     "C07": ("PARTIAL. Coq theorems: gzip, ar and pyc-zero-mtime find nothing to change in their own output (all inputs, all epochs); a zip/jar member is not later than the epoch after the clamp and a second pass over a written archive of settled members reports nothing; for ANY handler "
             "whose byte-level function is idempotent, a fault-free run that replaced a single-link file is followed by a run that reports Noop, and a run that does not report Replaced leaves the file's "
-            "bytes, inode and metadata alone (any fault). For javadoc the stamp pass is proved idempotent (no stamp text is left after one pass), the date-tag pass and the document level are not; for pyc byte-level idempotence is not closed in Coq (zip holds under well-formedness side conditions): it is decided by re-running model and "
+            "bytes, inode and metadata alone (any fault). The pyc rewriter run on its own output re-reads the tree it wrote and writes the same bytes (C07_pyc, from the round-trip theorem; domain as for C02). For javadoc the stamp pass is proved idempotent (no stamp text is left after one pass), the date-tag pass and the document level are not (zip holds under well-formedness side conditions): these are decided by re-running model and "
             "implementation on every output of a modifying first run (all six handlers, generated inputs) and by CLI runs run;run;--check in the four serial/parallel combinations with inode/mtime snapshots.",
             "Modelled, not verified: the parallel controller; the multi-link rewrite path is covered by the tree runs.", "DESIGN.md section 5-C07"),
     "C08": ("Coq theorems for every byte string: none of the modelled handlers (gzip, ar, javadoc, pyc incl. the recursive marshal reader with its depth limit, pyc-zero-mtime) can reach a panic; "
